@@ -11,6 +11,7 @@ Families (all judged by spec/Trace_Refine.tla on the common machine):
 import itertools
 import random
 
+from harness import positions
 from harness import common, gen, refcheck
 
 PID = "C03"
@@ -207,6 +208,23 @@ def main():
         for sz in (32, 80):
             add(lines + ["90 END"], "initial:" + tag, {"initialize_vars": True, "default_str_storage": sz},
                 [{"inp": s_inp("1", "2", "3"), "dev": [1, 2]}])
+    # a variable that occurs nowhere else, in every expression position, with pre-initialisation requested
+    for nm, lines in positions.NUM_POSITIONS:
+        if nm in ("elseif-condition", "elseif-arm"):      # the ELSE IF chain without ELSE spins (C02's recorded finding)
+            continue
+        for fill in ("W", "W(2)"):
+            body = positions.fill(lines, "{n}", fill)
+            add(["7 DIM C(9),D(2,9)"] + body + ([] if any(l.startswith("90 ") for l in body) else ["90 END"]), "initial:position:" + nm,
+                {"initialize_vars": True}, [{"inp": s_inp("1", "2", "3"), "dev": [1, 2, 0, 3]}])
+    for nm, lines in positions.STR_POSITIONS:
+        if nm == "elseif-condition":
+            continue
+        for fill in ("W$", "W$(2)"):
+            if "INPUT" in lines[0] and "(" in fill:
+                continue
+            body = positions.fill(lines, "{s}", fill)
+            add(["7 DIM C(9),D(2,9)"] + body + ["90 END"], "initial:position:" + nm, {"initialize_vars": True, "default_str_storage": 80},
+                [{"inp": s_inp("1", "2", "3"), "dev": [1, 2, 0, 3]}])
     # strings longer than BASIC09's 32 bytes with a requested size they fit: every string variable, element and temporary
     # must have been given that size (BASIC09 cuts a string to the declared size of what it is stored in)
     L = "ABCDEFGHIJKLMNOPQRSTUVWXYZ0123456789ABCD"
